@@ -7,7 +7,10 @@
     - [d_self_transfer]: [transfer] reads the receiver balance before the debit is written,
       so [from = to] credits the amount without debiting it;
     - [d_neg_amount]: the amount string is parsed by [big.Int.SetString] and never sign-checked,
-      so ["-30"] passes the balance check and moves value from the receiver to the sender. *)
+      so ["-30"] passes the balance check and moves value from the receiver to the sender;
+    - [d_fee_after_body]: the fee is checked against the balance left by the transaction body; when
+      that cannot pay, the body is reverted and the WHOLE original balance is taken even though it
+      could have covered the fee (repaired: after the revert the fee is charged if affordable). *)
 From BX Require Import Base.Prelude.
 From BXGen Require Import Gen_Sites.
 Local Open Scope Z_scope.
@@ -24,9 +27,9 @@ Fixpoint sumb (dom : list acct) (b : bals) : Z :=
   | a :: t => b a + sumb t b
   end.
 
-Record fcfg := { d_self_transfer : bool; d_neg_amount : bool }.
-Definition fcfg_fixed : fcfg := {| d_self_transfer := false; d_neg_amount := false |}.
-Definition fcfg_faithful : fcfg := {| d_self_transfer := true; d_neg_amount := true |}.
+Record fcfg := { d_self_transfer : bool; d_neg_amount : bool; d_fee_after_body : bool }.
+Definition fcfg_fixed : fcfg := {| d_self_transfer := false; d_neg_amount := false; d_fee_after_body := false |}.
+Definition fcfg_faithful : fcfg := {| d_self_transfer := true; d_neg_amount := true; d_fee_after_body := true |}.
 
 (** the [Amount] field is a string; [big.Int.SetString(s, 10)] accepts an optional sign followed
     by decimal digits, anything else (including the empty string) makes the executor use 0 *)
@@ -105,13 +108,18 @@ Definition ntx_body (c : fcfg) (e : fenv) (b : bals) (t : ntx) : bals * bool * Z
   | NInvalid _ => (b, false, GasFailed, 0)
   end.
 
-(** one transaction: body, then the fee; an unaffordable fee reverts the body and takes the
-    whole remaining balance.  Result: balances, SUCCESS?, grant that took effect *)
+(** one transaction: body, then the fee against the balance the body left; if that cannot pay,
+    the body is reverted and the fee is charged against the restored balance, or the whole balance
+    is taken when even that cannot cover it.  Result: balances, SUCCESS?, grant that took effect *)
 Definition apply_ntx (c : fcfg) (e : fenv) (b : bals) (t : ntx) : bals * bool * Z :=
   let '(b1, ok, gas, g) := ntx_body c e b t in
   match pay_gas_fee e b1 (ntx_from t) gas with
   | Some b2 => (b2, ok, g)
-  | None => (pay_left e b (ntx_from t), false, 0)
+  | None =>
+      match (if d_fee_after_body c then None else pay_gas_fee e b (ntx_from t) gas) with
+      | Some b2 => (b2, false, 0)
+      | None => (pay_left e b (ntx_from t), false, 0)
+      end
   end.
 
 Fixpoint apply_block (c : fcfg) (e : fenv) (b : bals) (ts : list ntx) : bals * list bool * Z :=
